@@ -33,7 +33,7 @@ func (c06) Rule() string {
 }
 func (c06) Batches(string) int { return 32 }
 func (c06) Required(string) []string {
-	return []string{"runs", "matrix_runs", "generated_runs", "outcome_error", "outcome_value", "followup_ok", "callback_panics_raised", "object_method_panics_raised", "ctx.invoker", "ctx.finally", "ctx.deep1023", "errname.StackOverflowError", "errname.ZeroDivisionError"}
+	return []string{"runs", "matrix_runs", "generated_runs", "outcome_error", "outcome_value", "followup_ok", "callback_panics_raised", "object_method_panics_raised", "ctx.invoker", "ctx.finally", "ctx.deep1023"}
 }
 func (c06) Assumptions() []string {
 	return []string{"Go stack exhaustion through unbounded NATIVE recursion (cyclic containers) is outside the property's budget and not generated", "Go callbacks honour the Object contract (never return nil object with nil error)"}
@@ -120,6 +120,8 @@ var c06faults = []string{
 	"func() { var r; r = func() { return r() + 1 }; return r() }()",
 	"func() { var r; r = func(a, b, c, d, e, f, g, h) { x1 := a; x2 := b; x3 := c; return r(x1, x2, x3, d, e, f, g, h) + 1 }; return r(1, 2, 3, 4, 5, 6, 7, 8) }()",
 	"func() { var r; r = func() { try { return r() + 1 } finally { zero = 0 } }; return r() }()",
+	"func() { var r; r = func(a, b, c, d, e, f, g, h) { x1 := a; x2 := b; x3 := c; try { return 1 + r(x1, x2, x3, d, e, f, g, h) } catch ee { return -1 } }; return r(1, 2, 3, 4, 5, 6, 7, 8) }()",
+	"func() { var r; r = func(a, b, c, d, e, f, g, h, i, j, k, l) { try { return [a, b, c, d, e, f, g, h, i, j, k, l, r(a, b, c, d, e, f, g, h, i, j, k, l)] } catch ee { return -1 } finally { zero = 0 } }; return r(1, 2, 3, 4, 5, 6, 7, 8, 9, 10, 11, 12) }()",
 	"func() { var r; r = func() { try { throw \"t\" } catch e { return r() + 1 } }; return r() }()",
 	"throwing()",
 }
@@ -161,7 +163,11 @@ var c06known *ugo.Bytecode
 
 func c06knownBC() *ugo.Bytecode {
 	if c06known == nil {
-		bc, err := ugo.Compile([]byte("param x\nf := func(a) {\n  return a * a\n}\nr := 0\ntry {\n  r = f(x)\n} finally {\n  r += 1\n}\nout := []\nfor i := 0; i < 3; i++ {\n  out = append(out, i)\n}\nreturn [r, out]\n"), ugo.CompilerOptions{})
+		// the follow-up script also lets errors escape functions at call depth 1, 2 and 3 (uncaught there, caught by main):
+		// handlers or flags left in those frames by the previous run must not interfere
+		bc, err := ugo.Compile([]byte("param x\nf := func(a) {\n  return a * a\n}\nr := 0\ntry {\n  r = f(x)\n} finally {\n  r += 1\n}\nout := []\nfor i := 0; i < 3; i++ {\n  out = append(out, i)\n}\n"+
+			"t1 := func() {\n  throw error(\"d1\")\n}\nt2 := func() {\n  v := t1()\n  return v\n}\nt3 := func() {\n  v := t2()\n  return v\n}\nmsgs := []\nfor g in [t1, t2, t3] {\n  try {\n    g()\n  } catch e {\n    msgs = append(msgs, e.Message)\n  }\n}\nplain := func(n) {\n  return n + 1\n}\n"+
+			"return [r, out, msgs, plain(1), plain(plain(1))]\n"), ugo.CompilerOptions{})
 		if err != nil {
 			panic(err)
 		}
@@ -170,7 +176,7 @@ func c06knownBC() *ugo.Bytecode {
 	return c06known
 }
 
-const c06knownWant = "[i:26,[i:0,i:1,i:2]]"
+const c06knownWant = "[i:26,[i:0,i:1,i:2],[s:\"d1\",s:\"d1\",s:\"d1\"],i:2,i:3]"
 
 // c06run executes one script under the host-panic monitor and the follow-up probes.
 func (m c06) run(c *core.Ctx, src, fault, context string, mm *ugo.ModuleMap, args []ugo.Object) (nontrivial bool) {
@@ -247,7 +253,10 @@ func (m c06) run(c *core.Ctx, src, fault, context string, mm *ugo.ModuleMap, arg
 		var v2 ugo.Object
 		var e2 error
 		var p2 any
-		func() {
+		hung := false
+		fdone := make(chan struct{})
+		go func() {
+			defer close(fdone)
 			defer func() {
 				if r := recover(); r != nil {
 					p2 = r
@@ -255,8 +264,28 @@ func (m c06) run(c *core.Ctx, src, fault, context string, mm *ugo.ModuleMap, arg
 			}()
 			v2, e2 = vm.SetBytecode(c06knownBC()).Run(nil, ugo.Int(5))
 		}()
+		// the known script finishes in microseconds on a healthy VM; 20 s is six orders of magnitude of slack.
+		// The verdict "hung" is only given when the VM then answers Abort with ErrVMAborted, i.e. its loop was
+		// demonstrably still executing instructions (a starved goroutine would instead finish normally).
+		select {
+		case <-fdone:
+		case <-time.After(20 * time.Second):
+			vm.Abort()
+			select {
+			case <-fdone:
+				hung = e2 == ugo.ErrVMAborted
+				if !hung {
+					c.Inconclusive("follow-up run slow but finished: " + fault + " @" + context)
+				}
+			case <-time.After(20 * time.Second):
+				c.Violation("C06|followup|unabortable-hang", "the follow-up run of a known terminating script hangs and does not react to Abort", wit("follow-up hang", ""))
+				return true
+			}
+		}
 		got := ""
 		switch {
+		case hung:
+			got = "hang: the known terminating script was still executing after 20 s (stopped by Abort)"
 		case p2 != nil:
 			got = "panic: " + fmt.Sprint(p2)
 		case e2 != nil:
